@@ -287,6 +287,64 @@ func VerifC07_CancelledWhileRunning() {
 	rt.Reach("cancelrunning-end")
 }
 
+// a task that already ran through the queue and is then scheduled waits, at its
+// scheduled time, for the task that occupies the queue slot (it is queued, not
+// started directly)
+func VerifC07_ScheduledAfterQueuedRun() {
+	rt.SchedYieldOnly(true)
+	m := c07Reset()
+	u := rt.Unit()
+	aRuns := 0
+	bRunning := false
+	gate := make(chan struct{})
+	a := m.NewTask("a", func(context.Context, *Task) error {
+		aRuns++
+		rt.Assert(!bRunning, "schedafterqueue/not-started-while-the-slot-is-taken")
+		return nil
+	}).MaxDelay(3 * u)
+	b := m.NewTask("b", func(context.Context, *Task) error {
+		bRunning = true
+		<-gate
+		bRunning = false
+		return nil
+	}).MaxDelay(3 * u)
+	go func() {
+		for {
+			taskTimeslot <- struct{}{}
+		}
+	}()
+	go taskQueueHandler()
+	go taskScheduleHandler()
+	// first run of a through a queue
+	switch rt.Choice("firstrun", 3) {
+	case 0:
+		a.Queue()
+	case 1:
+		a.QueuePrioritized()
+	case 2:
+		a.StartASAP()
+	}
+	time.Sleep(u / 8)
+	rt.Assert(aRuns == 1, "schedafterqueue/first-run-done")
+	// b takes the queue slot and stays in its function (a task that returned
+	// very quickly may keep the slot busy for up to the execution-wait limit:
+	// wait until b has started)
+	b.Queue()
+	for i := 0; i < 20 && !bRunning; i++ {
+		time.Sleep(u / 8)
+	}
+	rt.Assert(bRunning, "schedafterqueue/slot-taken")
+	// a is scheduled for a time at which b still runs (well within the
+	// execution-wait limit of one minute)
+	a.Schedule(time.Now().Add(u / 4))
+	time.Sleep(u / 2)
+	rt.Assert(aRuns == 1, "schedafterqueue/scheduled-task-waits-for-the-running-one")
+	close(gate)
+	time.Sleep(u / 2)
+	rt.Assert(aRuns == 2, "schedafterqueue/scheduled-task-runs-afterwards")
+	rt.Reach("schedafterqueue-end")
+}
+
 // ---- O4: a scheduled task does not start early, and does start ----
 
 func VerifC07_NotEarly() {
